@@ -1,5 +1,5 @@
 from functools import wraps
-from traceback import clear_frames
+import dis
 from inspect import getcoroutinestate, CORO_CREATED
 import reprlib
 import enum
@@ -68,6 +68,38 @@ class CancelTask(Interrupt):
         result = TaskCancelled(self.subject, *self.token)
         result.__cause__ = self
         return result
+
+
+#: opcodes at which a frame is suspended while it is alive
+_SUSPENSION_OPS = frozenset(
+    dis.opmap[name] for name in ('YIELD_VALUE', 'YIELD_FROM', 'SEND')
+    if name in dis.opmap
+)
+
+
+def release_frames(traceback):
+    """
+    Clear the frames that an exception has unwound for good
+
+    This is :py:func:`traceback.clear_frames`, except that it leaves frames alone
+    which handled the exception and went on since. An exception object may be shared -
+    awaited from a failed :py:class:`Task` by several activities, stored and raised
+    again - and its traceback then still leads to the frames of activities that are
+    alive and suspended elsewhere. Clearing such a frame would finalise its activity.
+    """
+    while traceback is not None:
+        frame = traceback.tb_frame
+        lasti = frame.f_lasti
+        if not (
+            lasti != traceback.tb_lasti
+            and 0 <= lasti < len(frame.f_code.co_code)
+            and frame.f_code.co_code[lasti] in _SUSPENSION_OPS
+        ):
+            try:
+                frame.clear()
+            except RuntimeError:
+                pass  # still executing
+        traceback = traceback.tb_next
 
 
 class TaskClosed(Exception):
@@ -142,7 +174,7 @@ class Task(Awaitable[RT]):
                 ), "task for activity %r received cancellation of %r" % (
                     self, err.subject
                 )
-                clear_frames(err.__traceback__)
+                release_frames(err.__traceback__)
                 self._result = None, err.__transcript__
                 self.parent.__child_finished__(self, failed=False)
             except GeneratorExit:
@@ -152,7 +184,7 @@ class Task(Awaitable[RT]):
                 # termination in self.__close__ or during cleanup.
                 self.parent.__child_finished__(self, failed=False)
             except BaseException as err:
-                clear_frames(err.__traceback__)
+                release_frames(err.__traceback__)
                 self._result = None, err
                 self._traceback = err.__traceback__
                 self.parent.__child_finished__(self, failed=True)
